@@ -122,6 +122,59 @@ theorem ndarray_op_array {env : Env} (hl : env.Lawful) (op : Op) {q : Quantity} 
     rw [arrayCompute_ident _ _ (opFunc_div_empty_left hl op hq hop)]
     cases kind <;> simp [genIsNumpy, Raw.isNumpy, broadcastPairs, hlen]
 
+/-! ### the legacy operator `Array.__rdiv__` and Arrays whose `values` is a bare number -/
+
+/-- `x.__rdiv__(k)` is `k / x` (the body of `__rtruediv__`), for every kind of `k` that is not itself a barril
+object on the left: numbers, ndarrays, malformed operands -/
+theorem array_rdiv_eq_rtruediv (env : Env) (q : Quantity) (kind : Kind) (vs : List Rat) (k : Operand)
+    (hk : k.isBarril = false) :
+    arrayRDiv env (.array q kind vs) k = binop env true .div k (.array q kind vs) := by
+  cases k <;> simp_all [arrayRDiv, binop, Operand.isBarril]
+
+/-- hence `x.__rdiv__(k)` has the reciprocal quantity, x's container kind and `k / v` for every value -/
+theorem array_rdiv_num {env : Env} (hl : env.Lawful) {q : Quantity} (hq : Normal env q)
+    (kind : Kind) (vs : List Rat) (np : Bool) (k : Rat) :
+    arrayRDiv env (.array q kind vs) (.num np k) =
+      (mapE (fun x => vop .div k x) vs).map (Out.array (recipQ q) kind) := by
+  rw [array_rdiv_eq_rtruediv env q kind vs (.num np k) rfl]
+  exact num_div_array hl true .div hq kind vs np k rfl (by simp)
+
+/-- an Array whose `values` is a bare number `v` (`_ValueGenerator` iterates neither side): `x op k` is a list
+Array of the one value `v op k`, with x's quantity -/
+theorem array0_op_num {env : Env} (hl : env.Lawful) (d : Bool) (op : Op) {q : Quantity} (hq : Normal env q)
+    (v : Rat) (np : Bool) (k : Rat) :
+    binop env d op (.array0 q v) (.num np k) = (vop op v k).map (fun z => Out.array q .list [z]) := by
+  simp only [binop, arrayDoOp, rawOf, valuesOf, quantityOf]
+  rw [arrayCompute_ident _ _ (opFunc_empty_right hl op hq)]
+  simp only [genIsNumpy, Raw.isNumpy, Bool.or_self, Bool.false_eq_true, ↓reduceIte, genPairs, genIsTuple,
+    Raw.iterates, Bool.and_self, mapE]
+  cases vop op v k <;> rfl
+
+/-- `k op x` for `+ - *` on such an Array, and `k / x`, `k // x` with the reciprocal quantity -/
+theorem num_op_array0 {env : Env} (hl : env.Lawful) (d : Bool) (op : Op) {q : Quantity} (hq : Normal env q)
+    (v : Rat) (np : Bool) (k : Rat) (hd : np = true → d = true) :
+    binop env d op (.num np k) (.array0 q v) =
+      (vop op k v).map (fun z => Out.array (if isDivision op then recipQ q else q) .list [z]) := by
+  have hb : (np && !d) = false := by cases np <;> cases d <;> simp_all
+  simp only [binop, hb, arrayDoOp, rawOf, valuesOf, quantityOf]
+  cases hop : isDivision op
+  · rw [arrayCompute_ident _ _ (opFunc_empty_left hl op hq hop)]
+    simp only [genIsNumpy, Raw.isNumpy, Bool.or_self, Bool.false_eq_true, ↓reduceIte, genPairs, genIsTuple,
+      Raw.iterates, Bool.and_self, mapE]
+    cases vop op k v <;> rfl
+  · rw [arrayCompute_ident _ _ (opFunc_div_empty_left hl op hq hop)]
+    simp only [genIsNumpy, Raw.isNumpy, Bool.or_self, Bool.false_eq_true, ↓reduceIte, genPairs, genIsTuple,
+      Raw.iterates, Bool.and_self, mapE]
+    cases vop op k v <;> rfl
+
+/-- two barril operands one of which holds a bare number as its `values`: `len()` of a number is a `TypeError`,
+whatever the other Array holds -/
+theorem array0_op_array_type_error (env : Env) (d : Bool) (op : Op) (q1 q2 : Quantity) (v : Rat) (kind : Kind)
+    (vs : List Rat) :
+    binop env d op (.array0 q1 v) (.array q2 kind vs) = .error .type ∧
+    binop env d op (.array q2 kind vs) (.array0 q1 v) = .error .type := by
+  simp [binop, arrayDoOp, rawOf, valuesOf, rawLen]
+
 /-! ### the result is always a barril object carrying a quantity -/
 
 /-- **whichever operand stands on the left**, when one operand is a Scalar or an Array and numpy
